@@ -423,23 +423,29 @@ func c12Aspects() []c12Aspect {
 		{"retransmit", prod(func(s *c12Spec) { s.Retrans = 0 }, func(s *c12Spec) { s.Retrans = 1 }, func(s *c12Spec) { s.Retrans = 2 })},
 		{"mtu", prod(func(s *c12Spec) { s.MTU = 0 }, func(s *c12Spec) { s.MTU = 1500 }, func(s *c12Spec) { s.MTU = 1280 })},
 		{"prefix", cross(
-			[]func(*c12Spec){pf(), pf(c12Pfx{P1, 100, 50}), pf(c12Pfx{P1, 100, 50}, c12Pfx{P2, 200, 100})},
+			[]func(*c12Spec){pf(), pf(c12Pfx{P1, 100, 50}), pf(c12Pfx{P1, 100, 50}, c12Pfx{P2, 200, 100}), pf(c12Pfx{P148, 100, 50}, c12Pfx{P1, 100, 50})},
 			[]func(*c12Spec){pf(), pf(c12Pfx{P1, 100, 50}), pf(c12Pfx{P1, 100, 60}), pf(c12Pfx{P1, 110, 50}), pf(c12Pfx{P1, 110, 60}), pf(c12Pfx{P2, 200, 100}),
-				pf(c12Pfx{P1, 100, 50}, c12Pfx{P2, 200, 100}), pf(c12Pfx{P1, 100, 50}, c12Pfx{P2, 200, 90}), pf(c12Pfx{P148, 100, 60}), pf(c12Pfx{P2, 210, 100}, c12Pfx{P1, 100, 50})})},
+				pf(c12Pfx{P1, 100, 50}, c12Pfx{P2, 200, 100}), pf(c12Pfx{P1, 100, 50}, c12Pfx{P2, 200, 90}), pf(c12Pfx{P148, 100, 60}), pf(c12Pfx{P2, 210, 100}, c12Pfx{P1, 100, 50}),
+				// the same base address with two lengths in one RA (a /64 and its covering /48), both orders
+				pf(c12Pfx{P1, 110, 60}, c12Pfx{P148, 100, 50}), pf(c12Pfx{P148, 100, 50}, c12Pfx{P1, 110, 60}), pf(c12Pfx{P148, 120, 50}, c12Pfx{P1, 100, 50})})},
 		{"route", cross(
-			[]func(*c12Spec){rt(), rt(c12Rt{R1, "medium", 100}), rt(c12Rt{R1, "medium", 100}, c12Rt{R2, "high", 50})},
+			[]func(*c12Spec){rt(), rt(c12Rt{R1, "medium", 100}), rt(c12Rt{R1, "medium", 100}, c12Rt{R2, "high", 50}), rt(c12Rt{R156, "medium", 100}, c12Rt{R1, "medium", 100})},
 			[]func(*c12Spec){rt(), rt(c12Rt{R1, "medium", 100}), rt(c12Rt{R1, "medium", 90}), rt(c12Rt{R1, "high", 90}), rt(c12Rt{R1, "high", 100}), rt(c12Rt{R2, "high", 50}),
-				rt(c12Rt{R2, "high", 40}, c12Rt{R1, "medium", 100}), rt(c12Rt{R156, "medium", 90}), rt(c12Rt{R2, "low", 40})})},
+				rt(c12Rt{R2, "high", 40}, c12Rt{R1, "medium", 100}), rt(c12Rt{R156, "medium", 90}), rt(c12Rt{R2, "low", 40}),
+				rt(c12Rt{R1, "medium", 90}, c12Rt{R156, "medium", 100}), rt(c12Rt{R156, "medium", 100}, c12Rt{R1, "medium", 90}), rt(c12Rt{R156, "medium", 80}, c12Rt{R1, "medium", 100})})},
 		{"rdnss", cross(
-			[]func(*c12Spec){dn(), dn(c12DNS{100, []string{S1, S2}}), dn(c12DNS{100, []string{S1}}, c12DNS{50, []string{S2}})},
+			[]func(*c12Spec){dn(), dn(c12DNS{100, []string{S1, S2}}), dn(c12DNS{100, []string{S1}}, c12DNS{50, []string{S2}}), dn(c12DNS{100, []string{S1}}, c12DNS{100, []string{S1}})},
 			[]func(*c12Spec){dn(), dn(c12DNS{100, []string{S1, S2}}), dn(c12DNS{90, []string{S1, S2}}), dn(c12DNS{100, []string{S1, S3}}), dn(c12DNS{100, []string{S1}}),
 				dn(c12DNS{100, []string{S2, S1}}), dn(c12DNS{100, []string{S1}}, c12DNS{50, []string{S2}}), dn(c12DNS{100, []string{S1}}, c12DNS{60, []string{S3}}), dn(c12DNS{90, []string{S1, S3}}),
-				dn(c12DNS{50, []string{S2}}, c12DNS{100, []string{S1}})})},
+				dn(c12DNS{50, []string{S2}}, c12DNS{100, []string{S1}}),
+				// two options with the *same* inconsistency each: one report per option
+				dn(c12DNS{90, []string{S1}}, c12DNS{90, []string{S1}}), dn(c12DNS{100, []string{S3}}, c12DNS{100, []string{S3}}), dn(c12DNS{90, []string{S1}}, c12DNS{40, []string{S2}})})},
 		{"dnssl", cross(
-			[]func(*c12Spec){sl(), sl(c12SL{100, []string{"a.example", "b.example"}}), sl(c12SL{100, []string{"a.example"}}, c12SL{50, []string{"b.example"}})},
+			[]func(*c12Spec){sl(), sl(c12SL{100, []string{"a.example", "b.example"}}), sl(c12SL{100, []string{"a.example"}}, c12SL{50, []string{"b.example"}}), sl(c12SL{100, []string{"a.example"}}, c12SL{100, []string{"a.example"}})},
 			[]func(*c12Spec){sl(), sl(c12SL{100, []string{"a.example", "b.example"}}), sl(c12SL{90, []string{"a.example", "b.example"}}), sl(c12SL{100, []string{"a.example", "c.example"}}),
 				sl(c12SL{100, []string{"a.example"}}), sl(c12SL{100, []string{"b.example", "a.example"}}), sl(c12SL{100, []string{"a.example"}}, c12SL{50, []string{"b.example"}}),
-				sl(c12SL{100, []string{"a.example"}}, c12SL{60, []string{"c.example"}}), sl(c12SL{90, []string{"a.example", "c.example"}})})},
+				sl(c12SL{100, []string{"a.example"}}, c12SL{60, []string{"c.example"}}), sl(c12SL{90, []string{"a.example", "c.example"}}),
+				sl(c12SL{90, []string{"a.example"}}, c12SL{90, []string{"a.example"}}), sl(c12SL{100, []string{"c.example"}}, c12SL{100, []string{"c.example"}})})},
 		{"captive_portal", prod(func(s *c12Spec) { s.CP = "" }, func(s *c12Spec) { s.CP = "https://portal.example/a" }, func(s *c12Spec) { s.CP = "https://portal.example/b" })},
 	}
 }
